@@ -74,7 +74,12 @@ def run_meaning(case):
     dets = trials.all_dets(norb, na, nb)
     if len(dets) > 14:
         dets = [dets[i] for i in rng.choice(len(dets), size=14, replace=False)]
+    # the anti-aufbau determinant is always listed (as a reference it makes every excitation a downward move)
+    inv = (tuple(1 if i >= norb - na else 0 for i in range(norb)), tuple(1 if i >= norb - nb else 0 for i in range(norb)))
+    if inv not in dets:
+        dets[0] = inv
     coeffs = rng.normal(size=len(dets))
+    coeffs[dets.index(inv)] = np.sign(coeffs[dets.index(inv)]) * (abs(coeffs[dets.index(inv)]) + 0.3)
     base = {d: float(c) for d, c in zip(dets, coeffs)}
     psi = F.ci_state(base)
     walkers = [trials.rand_walker(rng, norb, na, nb) for _ in range(3)]
@@ -86,6 +91,8 @@ def run_meaning(case):
     for variant in range(5):
         order = rng.permutation(len(dets))
         lst = [dets[i] for i in order]
+        if variant == 0:
+            lst = [inv] + [d for d in lst if d != inv]
         if abs(base[lst[0]]) < 0.05:
             continue  # the reference coefficient multiplies everything: keep it away from zero
         state = {d: base[d] for d in lst}
